@@ -79,9 +79,75 @@ theorem parseGo_fits : ∀ (n : Nat) (code : List Nat), code.length = n → ∀ 
         · exact instrsize_le _
       · exact hrec x hx
 
+theorem parseGo_Fits : ∀ (n : Nat) (code : List Nat), code.length = n → ∀ (i : Nat) (arg : Int) (nargs e : Nat) (raws : List RawI),
+    (∀ x ∈ code, x < 256) → nargs ≤ 3 → (arg = sgn32 e ∧ e % 256 = 0 ∧ e < 256 ^ (nargs + 1)) → Complete code nargs →
+    parseGo EXTENDED_ARG code i arg nargs = .ok raws → (∀ r ∈ raws, r.nargs ≤ 4) →
+    ∀ r ∈ raws, Fits r.arg r.nargs ∧ r.op ≠ EXTENDED_ARG := by
+  intro n
+  induction n using Nat.strongRecOn with
+  | ind n ih =>
+  intro code hlen i arg nargs e raws hb hn3 hrel hc hp hn
+  match code, hlen with
+  | [], _ =>
+    simp [parseGo, pure, Except.pure] at hp
+    subst hp
+    intro r hr; cases hr
+  | [_], _ => simp [Complete] at hc
+  | op :: a :: rest, hlen =>
+    have ha : a < 256 := hb a (by simp)
+    have hrest : ∀ x ∈ rest, x < 256 := fun x hx => hb x (by simp [hx])
+    simp only [List.length_cons] at hlen
+    rw [parseGo] at hp
+    simp only [Complete] at hc
+    obtain ⟨hv1, hv2, hv3⟩ := hrel
+    by_cases hop : op = EXTENDED_ARG
+    · simp only [hop, if_true] at hp hc
+      by_cases h3 : nargs = 3
+      · subst h3
+        obtain ⟨r, rs, h1, h2⟩ := parseGo_first_nargs rest.length rest rfl _ _ _ raws hc (by omega) hp
+        have := hn r (by rw [h1]; simp)
+        omega
+      · have h2 : nargs ≤ 2 := by omega
+        have he : e < 16777216 := by
+          have : nargs = 0 ∨ nargs = 1 ∨ nargs = 2 := by omega
+          rcases this with h | h | h <;> subst h <;> simp at hv3 <;> omega
+        have harg : arg = (e : Int) := by
+          rw [hv1, sgn32]; split
+          · omega
+          · rfl
+        rw [c_int_upper_eq, c_int_len_eq, harg] at hp
+        have hrel' : ((if ((e : Int) + a) * 256 > 2147483647 then ((e : Int) + a) * 256 - 4294967296 else ((e : Int) + a) * 256) = sgn32 ((a + e) * 256)) ∧
+            ((a + e) * 256) % 256 = 0 ∧ (a + e) * 256 < 256 ^ (nargs + 1 + 1) := by
+          refine ⟨?_, by omega, ?_⟩
+          · unfold sgn32; split <;> split <;> omega
+          · have : nargs = 0 ∨ nargs = 1 ∨ nargs = 2 := by omega
+            rcases this with h | h | h <;> subst h <;> simp at hv3 ⊢ <;> omega
+        exact ih rest.length (by omega) rest rfl (i + 2) _ (nargs + 1) ((a + e) * 256) raws hrest (by omega) hrel' hc hp hn
+    · simp only [hop, if_false] at hp hc
+      obtain ⟨r, hr, hp⟩ := bind_ok hp
+      simp only [pure, Except.pure, Except.ok.injEq] at hp
+      subst hp
+      have hrec := ih rest.length (by omega) rest rfl (i + 2) 0 0 0 r hrest (by omega) ⟨by simp [sgn32], by simp, by simp⟩ hc hr
+        (fun x hx => hn x (by simp [hx]))
+      intro x hx
+      simp only [List.mem_cons] at hx
+      rcases hx with rfl | hx
+      · refine ⟨?_, hop⟩
+        show Fits (arg + a) (nargs + 1)
+        unfold Fits
+        have : nargs = 0 ∨ nargs = 1 ∨ nargs = 2 ∨ nargs = 3 := by omega
+        rcases this with h | h | h | h <;> subst h <;> simp at hv3 ⊢ <;> rw [hv1] <;> unfold sgn32 <;> split <;> omega
+      · exact hrec x hx
+
+
 /-- **every operand fits the width it was read in** -/
 theorem parseBytes_fits (code : List Nat) (raws : List RawI) (hb : ∀ x ∈ code, x < 256) (hc : Complete code 0)
     (hp : parseBytes code = .ok raws) (hn : ∀ r ∈ raws, r.nargs ≤ 4) : ∀ r ∈ raws, instrsize r.arg ≤ r.nargs :=
   parseGo_fits code.length code rfl 0 0 0 0 raws hb (by omega) ⟨by simp [sgn32], by simp, by simp⟩ hc hp hn
+
+/-- **every operand is in the range of the width it was read in, and no instruction is a bare prefix** -/
+theorem parseBytes_Fits (code : List Nat) (raws : List RawI) (hb : ∀ x ∈ code, x < 256) (hc : Complete code 0)
+    (hp : parseBytes code = .ok raws) (hn : ∀ r ∈ raws, r.nargs ≤ 4) : ∀ r ∈ raws, Fits r.arg r.nargs ∧ r.op ≠ EXTENDED_ARG :=
+  parseGo_Fits code.length code rfl 0 0 0 0 raws hb (by omega) ⟨by simp [sgn32], by simp, by simp⟩ hc hp hn
 
 end CDV
